@@ -9,9 +9,10 @@ Import ListNotations.
 
 (* (a) the invariant: no store outside the allocated cells ever happened; a static buffer's len is
    covered by its data; a dynamic buffer either has no storage and len 0, or len < malloced and the
-   cell after the contents holds NUL.  Established by create ... *)
-Theorem C19_invariant_established : forall data block,
-  (N.of_nat (length data) + 1 + block < 4294967296)%N -> Inv (create data block).
+   cell after the contents holds NUL.  Established by create for ANY arguments: whenever it does not
+   return NULL (create_opt = None: the 32-bit size computation wrapped, d7df267) ... *)
+Theorem C19_invariant_established : forall data block b,
+  create_opt data block = Some b -> Inv b /\ contents b = data /\ bstatic b = false.
 Proof. exact Inv_create. Qed.
 Print Assumptions C19_invariant_established.
 
@@ -23,7 +24,10 @@ Print Assumptions C19_terminator.
 
 (* (a)+(b) one operation, ANY operation: contents, static mark and returned value are those of the
    plain byte string (spec_step), and the invariant is preserved.
-   op_ok = the documented contract: delete ranges inside the contents, sizes below 2^32. *)
+   op_ok = the documented contract: delete ranges inside the contents; arguments are 32-bit values
+   (create: any len, malloc_block < 2^32 — a wrapped size gives NULL, as spec_step says); what remains
+   of "no wrap": the second operand of insert / append / compare / search holds < 2^32 - 22 octets,
+   duplicate len + 1 < 2^32, split_words len + 22 < 2^32, strip_blanks len + 1 < 2^32. *)
 Theorem C19_step_refines : forall b o, Inv b -> op_ok (abs b) o = true ->
   abs (fst (step b o)) = fst (spec_step (abs b) o) /\
   snd (step b o) = snd (spec_step (abs b) o) /\
@@ -144,8 +148,10 @@ Proof. reflexivity. Qed.
 Example C19_ex_terminator_is_stored :
   cells (create [1; 2]%N 5%N) = [1; 2; 0; 170; 170; 170]%N /\
   cells (fst (delete (create [1; 2; 3]%N 0%N) 1%N 1%N)) = [1; 3; 0; 0]%N /\
-  Inv (create [1; 2]%N 5%N).
-Proof. split; [reflexivity | split; [reflexivity | apply Inv_create; reflexivity]]. Qed.
+  Inv (create [1; 2]%N 5%N) /\
+  create_opt [1; 2]%N 4294967295%N = None /\ create_opt [] 4294967295%N = Some (create [] 0%N) /\
+  step (create [1; 2]%N 5%N) (OCreate [7]%N 4294967295%N) = (create [1; 2]%N 5%N, RNull).
+Proof. split; [reflexivity | split; [reflexivity | split; [apply (Inv_create [1; 2]%N 5%N); reflexivity | repeat split]]]. Qed.
 
 Example C19_ex_sequence :
   let ops := [OAppendCstr [32; 32; 97; 9; 10; 98; 32; 0; 99]; OShrink; OStrip; OInsert [120; 121] 1; ODelete 0 1;
